@@ -30,8 +30,11 @@ def entries_for(rng, n):
         style = rng.random()
         if style < 0.4:
             name = bytes(rng.choice(b"abcdefghijklmnopqrstuvwxyz0123456789._-") for _ in range(nlen))
+        elif style < 0.6:
+            name = bytes(rng.randrange(0, 256) for _ in range(nlen))
         elif style < 0.7:
-            name = bytes(rng.randrange(1, 256) for _ in range(nlen))
+            # NUL and white space at the ends of a name are part of the name
+            name = rng.choice([b"\x00", b"ends-with-nul\x00", b"\x00starts", b"mid\x00dle", b"trailing-space ", b" ", b"two-nuls\x00\x00", b"nl\n", b"\n", b"\x00\x00\x00"])
         else:
             name = ("é/日本 " * nlen).encode()[:nlen]
         out.append((rng.choice(FIELD + [0o40755, 0o100644]), rng.choice(FIELD) if rng.random() < 0.5 else rng.getrandbits(32), rng.choice(FIELD) if rng.random() < 0.3 else rng.getrandbits(32), name))
